@@ -1,0 +1,83 @@
+//go:build verif
+
+// Contracts for package lisp, read by /verif/bin/govc (see /verif/DESIGN.md,
+// Appendix B for the grammar).  This file is compiled only under the build
+// tag `verif`; it contains comments and ghost declarations, no behaviour.
+
+package lisp
+
+//@ pred physOK(s)    = s.MaxHeightPhysical <= 0 || len(s.Frames) <  s.MaxHeightPhysical
+//@ pred physBound(s) = s.MaxHeightPhysical <= 0 || len(s.Frames) <= s.MaxHeightPhysical
+//@ pred logOK(s)     = s.MaxHeightLogical <= 0 || len(s.Frames) == 0 || s.Frames[len(s.Frames)-1].HeightLogical <= s.MaxHeightLogical
+//@ pred tailOK(s)    = s.MaxTailIterations <= 0 || len(s.Frames) == 0 || s.Frames[len(s.Frames)-1].TailIterations <= s.MaxTailIterations
+//@ pred same(s, n)   = forall(j, 0, n, s.Frames[j] == old(s.Frames[j]))
+
+//@ func (*CallStack).Top
+//@   inline
+
+//@ func (*CallStack).checkHeightPhysical
+//@   requires s != nil
+//@   ensures  [exact] (result == nil) == physOK(s)
+//@   ensures  [errtype] result != nil ==> typeis(result, *PhysicalStackOverflowError)
+//@   modifies nothing
+//@   property C04
+
+//@ func (*CallStack).CheckHeight
+//@   requires s != nil
+//@   ensures  [exact] (result == nil) == logOK(s)
+//@   modifies nothing
+//@   property C04
+
+//@ func (*CallStack).checkHeightPush
+//@   requires s != nil
+//@   ensures  [exact] (result == nil) == (physOK(s) && logOK(s))
+//@   modifies nothing
+//@   property C04
+
+//@ func (*CallStack).CheckTailIterations
+//@   requires s != nil
+//@   ensures  [exact] (result == nil) == tailOK(s)
+//@   modifies nothing
+//@   property C04
+
+//@ func (*CallStack).CheckTailCall
+//@   requires s != nil
+//@   ensures  [exact] (result == nil) == (logOK(s) && tailOK(s))
+//@   modifies nothing
+//@   property C04 C02
+
+//@ func (*CallStack).PushFID
+//@   requires s != nil && physBound(s)
+//@   ensures  [decision] (result == nil) == (old(physOK(s)) && old(logOK(s)))
+//@   ensures  [refused-unchanged] result != nil ==> len(s.Frames) == old(len(s.Frames)) && same(s, len(s.Frames))
+//@   ensures  [pushed-one] result == nil ==> len(s.Frames) == old(len(s.Frames)) + 1 && same(s, old(len(s.Frames)))
+//@   ensures  [frame-ids] result == nil ==> s.Frames[len(s.Frames)-1].Source == src && s.Frames[len(s.Frames)-1].FID == fid
+//@   ensures  [frame-names] result == nil ==> s.Frames[len(s.Frames)-1].Package == pkg && s.Frames[len(s.Frames)-1].Name == name
+//@   ensures  [frame-flags] result == nil ==> !s.Frames[len(s.Frames)-1].Terminal && !s.Frames[len(s.Frames)-1].TROBlock
+//@   ensures  [frame-iters] result == nil ==> s.Frames[len(s.Frames)-1].TailIterations == 0
+//@   ensures  [height-first] result == nil && old(len(s.Frames)) == 0 ==> s.Frames[0].HeightLogical == 0
+//@   ensures  [height-next] result == nil && old(len(s.Frames)) > 0 && old(s.Frames[len(s.Frames)-1].HeightLogical) < 9223372036854775807 ==> s.Frames[len(s.Frames)-1].HeightLogical == old(s.Frames[len(s.Frames)-1].HeightLogical) + 1
+//@   ensures  [INV-physical-bound] physBound(s)
+//@   modifies s.Frames, CallFrame.*
+//@   property C04 C05 C18
+
+//@ func (*CallStack).Pop
+//@   requires s != nil
+//@   panics-when len(s.Frames) < 1
+//@   ensures  [popped-one] len(s.Frames) == old(len(s.Frames)) - 1 && same(s, len(s.Frames))
+//@   ensures  [returns-top] result == old(s.Frames[len(s.Frames)-1])
+//@   modifies s.Frames, CallFrame.*
+//@   property C05 C04
+
+//@ func (*CallStack).TerminalFID
+//@   requires s != nil
+//@   loop 1 (i) invariant -1 <= i && i < len(s.Frames)
+//@   loop 1 (i) invariant forall(j, i+1, len(s.Frames), s.Frames[j].Terminal && !s.Frames[j].TROBlock && s.Frames[j].FID != fid)
+//@   loop 1 (i) decreases i + 1
+//@   panics-when exists(j, 0, len(s.Frames), s.Frames[j].TROBlock && forall(k, j, len(s.Frames), s.Frames[k].Terminal) && forall(k, j+1, len(s.Frames), s.Frames[k].FID != fid && !s.Frames[k].TROBlock))
+//@   ensures  [range] 0 <= result && result <= len(s.Frames)
+//@   ensures  [chain-starts-at-fid] result > 0 ==> s.Frames[len(s.Frames)-result].FID == fid
+//@   ensures  [chain-terminal-unblocked] result > 0 ==> forall(j, len(s.Frames)-result, len(s.Frames), s.Frames[j].Terminal && !s.Frames[j].TROBlock)
+//@   ensures  [chain-minimal] result > 0 ==> forall(j, len(s.Frames)-result+1, len(s.Frames), s.Frames[j].FID != fid)
+//@   ensures  [none] result == 0 ==> exists(j, 0, len(s.Frames)+1, forall(k, j, len(s.Frames), s.Frames[k].Terminal && s.Frames[k].FID != fid) && (j == 0 || !s.Frames[j-1].Terminal))
+//@   property C02
